@@ -727,7 +727,29 @@ func stUpdateSettings(h *Hist, r *mon.Rand) *Call {
 			ch := stSettingChoices[r.Intn(len(stSettingChoices))]
 			f[ch.K] = ch.V[r.Intn(len(ch.V))]
 		}
-		if h.stHostile(r, 0.6) {
+		if r.Chance(0.2) {
+			// keys that differ only by surrounding whitespace name the same setting once trimmed; with different values the
+			// stored configuration (or the reported error) must still be the same on every node. The plain spelling may also
+			// already be pending from an earlier call.
+			ch := stSettingChoices[r.Intn(len(stSettingChoices))]
+			if len(ch.V) >= 2 {
+				pads := []string{" " + ch.K, ch.K + " ", "\t" + ch.K, ch.K + "\n", "  " + ch.K + " "}
+				i := r.Intn(len(ch.V))
+				f = map[string]string{pads[r.Intn(len(pads))]: ch.V[i]}
+				if r.Chance(0.6) {
+					f[ch.K] = ch.V[(i+1)%len(ch.V)]
+				}
+				if r.Chance(0.3) {
+					f[pads[r.Intn(len(pads))]] = ch.V[(i+1)%len(ch.V)]
+				}
+				if r.Chance(0.2) {
+					b := stBadSettings[r.Intn(2)+1] // an unparsable value next to them: the reported error must not depend on order either
+					f[" "+b.K] = b.V
+					f[b.K+" "] = "also-" + b.V
+				}
+				mut = "padded-duplicate-keys"
+			}
+		} else if h.stHostile(r, 0.6) {
 			switch r.Intn(3) {
 			case 0:
 				mut, from = "stranger", h.stStranger(r)
